@@ -154,7 +154,25 @@ class Extracted:
 
 
 def _parse_path(spec):
-    parts = [p.strip() for p in spec.split('::')]
+    # split on `::` at angle-bracket depth 0 only (an impl selector may name `TyEnvT<su::TermId>`); a `/regex/` part is kept whole
+    parts, cur, depth, i, in_rx = [], '', 0, 0, False
+    while i < len(spec):
+        ch = spec[i]
+        if ch == '/' and (in_rx or re.search(r'(?:arm|through|if)\s*$', cur)):
+            in_rx = not in_rx
+        if not in_rx:
+            if ch == '<':
+                depth += 1
+            elif ch == '>' and depth > 0:
+                depth -= 1
+            if depth == 0 and spec.startswith('::', i):
+                parts.append(cur.strip())
+                cur = ''
+                i += 2
+                continue
+        cur += ch
+        i += 1
+    parts.append(cur.strip())
     # re-join `impl A for B` that might contain '::'? selectors never contain '::' in our use
     return parts[0], parts[1:]
 
